@@ -50,6 +50,40 @@ Theorem c20_literal_not_int pf w s :
   parse_int 64 s = None -> convert_literal pf (TInt w) s = Err EParse.
 Proof. exact (literal_int_not_int64 pf w s). Qed.
 
+(* ---- the second sentence: the value.  Spec/JsonDecode.v defines, by recursion on the DOCUMENT, the value a JSON
+   decoder gives for bool / integer / float / string / slice / struct / pointer targets (jdec: null leaves the
+   position, other documents reach through the pointer levels, arrays append, objects assign their members by
+   exact exported name in document order, unknown names skipped or - strict - rejected); the correspondence
+   family jdec compares it with the real encoding/json on every generated document.  Unmarshalling the
+   mirroring stream computes exactly that value - and fails exactly when it fails, with the same error. ---- *)
+From SbModel Require Import Spec.JsonDecode Proofs.UnmarshalP Proofs.JsonDecodeP.
+
+Theorem c20_unmarshal_is_reference_decoding : forall pf o R t cur j rest,
+  jtarget t = true ->
+  exists f0, forall f, (f0 <= f)%nat ->
+    unm pf f o R t cur (mirror j ++ rest) =
+    match jdec pf o t cur j with Ok v => Ok (v, rest) | Err e => Err e | OutOfFuel => OutOfFuel end.
+Proof. exact unm_mirror_jdec. Qed.
+
+(* the whole pipeline on a document: DecodeJson, then Unmarshal into a zero target *)
+Theorem c20_document_into_zero_target : forall pf o R t j,
+  jtarget t = true ->
+  exists f0, forall f, (f0 <= f)%nat ->
+    decode_json (json_tokens j) = (mirror j, ENone) /\
+    unm pf f o R t (zero t) (mirror j) =
+    match jdec pf o t (zero t) j with Ok v => Ok (v, []) | Err e => Err e | OutOfFuel => OutOfFuel end.
+Proof.
+  intros pf o R t j Ht. destruct (unm_mirror_jdec_doc pf o R t j Ht) as (f0 & H).
+  exists f0. intros f Hf. split; [exact (decode_json_mirror j) | exact (H f Hf)].
+Qed.
+
+Theorem c20_reference_decoding_total : forall pf o t cur j, jdec pf o t cur j <> OutOfFuel.
+Proof. exact jdec_never_out_of_fuel. Qed.
+
+(* a member of an object that the target does not know is skipped whole, whatever it contains *)
+Theorem c20_unknown_member_skipped : forall j rest, skip_value 0 (mirror j ++ rest) = Ok rest.
+Proof. exact skip_value_mirror. Qed.
+
 Print Assumptions c20_mirror.
 Print Assumptions c20_mirror_map.
 Print Assumptions c20_several_documents.
@@ -59,3 +93,7 @@ Print Assumptions c20_mirror_wf.
 Print Assumptions c20_literal_int_range.
 Print Assumptions c20_literal_uint_range.
 Print Assumptions c20_literal_not_int.
+Print Assumptions c20_unmarshal_is_reference_decoding.
+Print Assumptions c20_document_into_zero_target.
+Print Assumptions c20_reference_decoding_total.
+Print Assumptions c20_unknown_member_skipped.
